@@ -128,7 +128,7 @@ def check(w):
         again = [byid[i] for i in sorted(rej) if i in byid]
         obs2, _ = run(w, again, "confirm")
         rej2, _, _ = validate(w, obs2, "confirm")
-        vlib_unreproduced(v, rej, rej2)
+        vlib_unreproduced(v, rej, rej2, total=len(obs))
         for o in obs2:
             if o["id"] in rej2:
                 v.violation(sig(o), {"scenario": o["scn"], "observed": {k: o[k] for k in ("result", "err", "dst", "denotes", "trailer", "hadold", "temps")}})
